@@ -446,6 +446,7 @@ func randomWorker(c *vf.Ctx, k int) {
 	nSeq := c.Pick(12, 120)
 	length := 300
 	reported := map[string]bool{}
+	known := metacmd.KnownSignatures(c, "C16")
 	for sn := 0; sn < nSeq; sn++ {
 		opts := ms.VerifFSMOptions{PtNumPerNode: uint32(1 + r.IntN(3)), NumOfShards: int32(r.IntN(4)), RetentionAutoCreate: r.IntN(2) == 0,
 			ExpandShardsEnable: r.IntN(3) == 0, UseIncSyncData: r.IntN(2) == 0, SchemaCleanEn: k%2 == 0}
@@ -489,8 +490,12 @@ func randomWorker(c *vf.Ctx, k int) {
 				if !reported[x.Sig] {
 					reported[x.Sig] = true
 					w := witness{Opts: opts, Part: "random", Sig: x.Sig}
-					w.Cmds = shrink(opts, append([]Cmd(nil), hist...), x.Sig, c.Pick(100, 250))
-					w.Shrunk = true
+					if metacmd.MatchesKnown(known, x.Sig) {
+						w.Cmds = append([]Cmd(nil), hist...)
+					} else {
+						w.Cmds = shrink(opts, append([]Cmd(nil), hist...), x.Sig, c.Pick(100, 250))
+						w.Shrunk = true
+					}
 					c.Violation(x.Sig, x.What, w)
 				} else {
 					c.Count("issues-repeated:"+x.Sig, 1)
@@ -601,7 +606,7 @@ func main() {
 		go func() {
 			defer wg.Done()
 			defer func() { <-sem }()
-			c.RunWorker(a, time.Duration(c.Pick(8, 38))*time.Minute)
+			c.RunWorker(a, time.Duration(c.Pick(15, 38))*time.Minute)
 		}()
 	}
 	wg.Wait()
